@@ -112,9 +112,6 @@ def impl(case):
         h = r
     return out
 
-def corr_view(case, obs):
-    return [(o[:-1] if (isinstance(o, list) and o and o[0] == "ok") else o) for o in obs]
-
 def _num(v):
     if v == "nan": return float("nan")
     if v in ("inf", "-inf"): return float(v)
